@@ -594,7 +594,8 @@ async fn body(sc: &EvSc, bounds: Bounds, prop: &str) -> Obs {
 		w(|x| x.log.push(L::Drain));
 		gate.open(1000);
 		rt::clear_slow();
-		let max_thr = sc.throttle.max(sc.throttle_change.unwrap_or(0));
+		// (a never-ending window is not waited for)
+		let max_thr = sc.throttle.max(sc.throttle_change.unwrap_or(0)).min(8);
 		'drain: for _ in 0..(sc.script.len() as u64 + 2) {
 			for _ in 0..=(max_thr + 1) {
 				if rt::settle_quiet().await.is_err() {
@@ -746,7 +747,10 @@ fn c01_end(sc: &EvSc, main_done: bool) {
 	if !main_done {
 		for id in &accepted {
 			let c = class_of(sc, *id);
-			if deliverable_at(sc, &log, *id) && !delivered.contains_key(id) {
+			// with a never-ending window whatever no urgent event flushed is legitimately
+			// still being collected at the end
+			let never_ending = sc.throttle >= HUGE && sc.throttle_change.map_or(true, |t| t >= HUGE);
+			if deliverable_at(sc, &log, *id) && !delivered.contains_key(id) && !never_ending {
 				push(format!("C01/accepted-event-lost/{c:?}"), format!("event #{id} ({c:?}) was accepted into the queue but never delivered"));
 			}
 		}
@@ -841,8 +845,14 @@ fn c01_end(sc: &EvSc, main_done: bool) {
 }
 
 /// The configured duration for a throttle of `ticks` ticks (see `EvSc::sub_ms`).
+/// A throttle of this many ticks stands for `Duration::MAX` (a window that never ends by
+/// itself: only an urgent event hands anything over).
+pub const HUGE: u64 = u64::MAX / 4;
+
 fn throttle_duration(sc: &EvSc, ticks: u64) -> std::time::Duration {
-	if sc.sub_ms && ticks >= 1 {
+	if ticks >= HUGE {
+		std::time::Duration::MAX
+	} else if sc.sub_ms && ticks >= 1 {
 		rt::TICK * (ticks - 1) as u32 + std::time::Duration::from_micros(500)
 	} else {
 		rt::TICK * ticks as u32
@@ -1102,6 +1112,14 @@ pub fn scenarios(prop: &str, tier: Tier) -> Vec<(EvSc, Vec<Bounds>)> {
 								out.push((c, ladder(0)));
 							}
 						}
+					}
+					// a window that never ends (Duration::MAX): nothing but an urgent event
+					// hands a batch over
+					if l <= 3 && *thr == thrs[0] {
+						let mut c = sc.clone();
+						c.throttle = HUGE;
+						c.horizon = 3;
+						out.push((c, ladder(0)));
 					}
 					// durations that are not whole milliseconds (also below one millisecond)
 					if l <= 3 {
